@@ -315,6 +315,9 @@ type DispCase struct {
 	Sender   string `json:"sender"`
 	Receiver string `json:"receiver"`
 	Repeat   int    `json:"repeat"`
+	// FromDecoder: hex of the byte stream this packet was decoded from (decode-then-dispatch cases);
+	// the replay re-decodes the stream so that the dispatcher sees exactly what ReadPacket produced.
+	FromDecoder string `json:"from_decoder,omitempty"`
 }
 
 var srvPool *miniserver.Server
@@ -335,7 +338,10 @@ func server() (*miniserver.Server, error) {
 	return srvPool, nil
 }
 
-func dispatchOracle(t vkit.TB, c DispCase) {
+func dispatchOracle(t vkit.TB, c DispCase) { dispatchPacket(t, c, nil) }
+
+// dispatchPacket pushes p (or, when nil, the packet described by c) to the dispatcher of a fresh connection.
+func dispatchPacket(t vkit.TB, c DispCase, ready *packet.TransferPacket) {
 	srv, err := server()
 	if err != nil {
 		t.Fatalf("harness: %v", err)
@@ -348,6 +354,9 @@ func dispatchOracle(t vkit.TB, c DispCase) {
 	p := &packet.TransferPacket{PacketType: packet.Type(c.Type), Payload: []byte(c.Payload)}
 	if c.HasCmd {
 		p.CommandPacket = &packet.CommandPacket{CommandType: packet.CommandType(c.CmdType), CommandId: c.CmdID, CommandBody: c.Body, SenderId: c.Sender, ReceiverId: c.Receiver}
+	}
+	if ready != nil {
+		p = ready
 	}
 	vkit.Journal("dispatcher", c)
 	type res struct {
@@ -549,6 +558,20 @@ func TestReplay(t *testing.T) {
 	}
 	var c DispCase
 	json.Unmarshal(b, &c)
+	if c.FromDecoder != "" {
+		raw := make([]byte, len(c.FromDecoder)/2)
+		fmt.Sscanf(c.FromDecoder, "%x", &raw)
+		sp := stream.NewStreamProcessor(&vkit.ChunkReader{Data: raw}, io.Discard, context.Background())
+		defer sp.Close()
+		for k := 0; k < 8; k++ {
+			pkt, _, err := sp.ReadPacket()
+			if err != nil {
+				break
+			}
+			dispatchPacket(t, c, pkt)
+		}
+		return
+	}
 	dispatchOracle(t, c)
 }
 
@@ -639,5 +662,57 @@ func TestRetention(t *testing.T) {
 			continue
 		}
 		vkit.Case("retention:"+name, true, "retention:"+name)
+	}
+}
+
+// TestDecodeThenDispatch: the end-to-end path of the property - a hostile byte stream is decoded by the
+// real ReadPacket and EVERY packet it yields is handed to the session dispatcher on a fresh
+// unauthenticated connection (what adapter.connectionReadLoop does). Streams are built from frames
+// with arbitrary type bytes and hostile bodies (empty, null, truncated JSON, gzip of nothing, ...).
+func TestDecodeThenDispatch(t *testing.T) {
+	bodies := [][]byte{nil, {}, []byte("null"), []byte("{}"), []byte(`{"CommandType":70}`), []byte(`{"CommandType":81,"CommandBody":"null"}`),
+		[]byte(`{"CommandType":96,"CommandBody":"{}"}`), []byte(" "), []byte("[]"), []byte(`"x"`), []byte("0"), gzipOf(0, 'x'), gzipOf(4, 'n')}
+	vkit.Check(t, 3000, 100000, func(t *rapid.T) {
+		var streamBytes []byte
+		n := rapid.IntRange(1, 4).Draw(t, "nframes")
+		var desc []string
+		for i := 0; i < n; i++ {
+			ty := byte(rapid.IntRange(0, 255).Draw(t, "type"))
+			if rapid.IntRange(0, 2).Draw(t, "json") != 0 {
+				ty = rapid.SampledFrom([]byte{0x10, 0x11, 0x50, 0x51, 0x01, 0x20}).Draw(t, "jtype")
+			}
+			b := rapid.SampledFrom(bodies).Draw(t, "body")
+			if rapid.IntRange(0, 3).Draw(t, "rand") == 0 {
+				b = rapid.SliceOfN(rapid.Byte(), 0, 40).Draw(t, "rbody")
+			}
+			if ty&0x3F == 0x03 {
+				streamBytes = append(streamBytes, ty)
+			} else {
+				streamBytes = append(streamBytes, frame(ty, b)...)
+			}
+			desc = append(desc, fmt.Sprintf("%#x:%d", ty, len(b)))
+		}
+		c := DecCase{Kind: "explicit", Hex: fmt.Sprintf("%x", streamBytes)}
+		cr := &vkit.ChunkReader{Data: streamBytes}
+		sp := stream.NewStreamProcessor(cr, io.Discard, context.Background())
+		defer sp.Close()
+		dispatched := 0
+		for k := 0; k < 8; k++ {
+			pkt, _, err := sp.ReadPacket()
+			if err != nil {
+				break
+			}
+			dc := DispCase{Type: byte(pkt.PacketType), HasCmd: pkt.CommandPacket != nil, Payload: string(pkt.Payload), FromDecoder: c.Hex}
+			if pkt.CommandPacket != nil {
+				dc.CmdType, dc.CmdID, dc.Body = byte(pkt.CommandPacket.CommandType), pkt.CommandPacket.CommandId, pkt.CommandPacket.CommandBody
+			}
+			dispatchPacket(t, dc, pkt)
+			dispatched++
+		}
+		vkit.Case("decode-then-dispatch", dispatched > 0, strings.Join(desc, ","))
+	})
+	if srvPool != nil {
+		srvPool.Close()
+		srvPool = nil
 	}
 }
